@@ -2,9 +2,12 @@ package ctrlflow
 
 import (
 	"bytes"
+	"errors"
 	"go/ast"
+	"go/parser"
 	"go/printer"
 	"go/token"
+	"go/types"
 	"sort"
 
 	"golang.org/x/tools/go/ssa"
@@ -183,3 +186,128 @@ func H_C03_ctrlflow_deterministic() {
 
 // samples whose converted form declares variables of more than one type
 var c03Samples = []string{"swap", "collatz", "conv", "bits"}
+
+// --- trash blocks -----------------------------------------------------------
+
+const c03LibSrc = `package lib
+
+var Counter int
+
+var Name string
+
+func Add(a, b int) int { return a + b }
+
+func Join(a, b string) string { return a + b }
+
+func Flag(b bool) bool { return !b }
+`
+
+type c03Importer struct{ lib *types.Package }
+
+func (i c03Importer) Import(path string) (*types.Package, error) {
+	if path == "example.com/lib" {
+		return i.lib, nil
+	}
+	return nil, errors.New("no such package")
+}
+
+// c03BuildWithLib is tvBuild for a file that imports example.com/lib (what the
+// trash generator takes its callees and globals from), set up like ssaBuildPkg.
+func c03BuildWithLib(src string) (*ast.File, *token.FileSet) {
+	fset := token.NewFileSet()
+	newInfo := func() *types.Info {
+		return &types.Info{
+			Types:      map[ast.Expr]types.TypeAndValue{},
+			Defs:       map[*ast.Ident]types.Object{},
+			Uses:       map[*ast.Ident]types.Object{},
+			Instances:  map[*ast.Ident]types.Instance{},
+			Implicits:  map[ast.Node]types.Object{},
+			Scopes:     map[ast.Node]*types.Scope{},
+			Selections: map[*ast.SelectorExpr]*types.Selection{},
+		}
+	}
+	libFile, err := parser.ParseFile(fset, "lib.go", c03LibSrc, parser.SkipObjectResolution)
+	if err != nil {
+		symx.Fail("parse lib: " + err.Error())
+		return nil, nil
+	}
+	libPkg, err := (&types.Config{}).Check("example.com/lib", fset, []*ast.File{libFile}, newInfo())
+	if err != nil {
+		symx.Fail("typecheck lib: " + err.Error())
+		return nil, nil
+	}
+	file, err := parser.ParseFile(fset, "p.go", src, parser.SkipObjectResolution|parser.ParseComments)
+	if err != nil {
+		symx.Fail("parse: " + err.Error())
+		return nil, nil
+	}
+	info := newInfo()
+	pkg, err := (&types.Config{Importer: c03Importer{libPkg}}).Check("p", fset, []*ast.File{file}, info)
+	if err != nil {
+		symx.Fail("typecheck: " + err.Error())
+		return nil, nil
+	}
+	prog := ssa.NewProgram(fset, 0)
+	for _, p := range pkg.Imports() {
+		prog.CreatePackage(p, nil, nil, true)
+	}
+	ssaPkg := prog.CreatePackage(pkg, []*ast.File{file}, info, false)
+	ssaPkg.Build()
+	_, newFile, _, err := Obfuscate(fset, ssaPkg, []*ast.File{file}, symx.Rand())
+	if err != nil {
+		symx.Fail("Obfuscate: " + err.Error())
+		return nil, nil
+	}
+	return newFile, fset
+}
+
+// H_C03_trash_deterministic: a function with trash blocks, obfuscated twice
+// with the same seeded draws, is the same code whatever order maps iterate in.
+func H_C03_trash_deterministic() {
+	symx.Stub("mvdan.cc/garble/internal/ctrlflow.getRandomName", freshName)
+	src := `package p
+
+import "example.com/lib"
+
+var _ = lib.Add
+
+//garble:controlflow flatten_passes=1 trash_blocks=1
+func pick(a int, s string, b bool) int {
+	if b {
+		return a + len(s)
+	}
+	return a - 1
+}
+`
+	once := func() string {
+		nameCounter = 0
+		symx.DrawPolicy(tvPolicy(0, false))
+		file, fset := c03BuildWithLib(src)
+		symx.DrawPolicy(nil)
+		if file == nil {
+			return ""
+		}
+		return tvPrint(fset, file)
+	}
+	out1 := once()
+	symx.RewindDraws()
+	symx.MapOrder(true)
+	// one perturbation per path applied to every map range of the second run: identity, reversal
+	// or rotation by one (the product over all ranges of the generator is not explorable)
+	symx.MapOrderOpts(2, -1, false)
+	out2 := once()
+	symx.MapOrder(false)
+	symx.MapOrderOpts(0, 0, false)
+	if !symx.Symbolic() {
+		for i := 0; i < 60 && out1 == out2; i++ {
+			out2 = once()
+		}
+	}
+	if out1 == "" || out2 == "" {
+		return
+	}
+	symx.Reach("twice")
+	if !ev.SameText(out1, out2) {
+		symx.Fail("the emitted trash blocks depend on map iteration order:\n--- first run\n" + out1 + "\n--- second run\n" + out2)
+	}
+}
